@@ -364,3 +364,15 @@ fn invalid_case(ctx: &mut Ctx, case_seed: u64, rs: &RSchema, rng: &mut Rng) {
 	ctx.distinct_bytes(&[text.as_bytes()]);
 	let _ = shape_hash;
 }
+
+#[allow(dead_code)]
+pub fn debug_schema(case_seed: u64) {
+	let mut rng = Rng::new(case_seed);
+	let mut cfg = SchemaGenCfg::default();
+	cfg.max_nodes = *rng.pick(&[1, 4, 10, 24, 40]);
+	cfg.allow_big_fixed_decimal = true;
+	let rs = gen_schema(&mut rng, &cfg);
+	for (i, n) in rs.nodes.iter().enumerate() {
+		println!("{i}: {n:?}");
+	}
+}
